@@ -41,6 +41,7 @@ def run(ctx, obs):
     codec(ctx, obs)
     loaders(ctx, obs)
     numbered_keys(ctx, obs)
+    descriptors_unfiltered(ctx, obs)
 
 
 def tables(ctx, obs):
@@ -416,3 +417,22 @@ def numbered_keys(ctx, obs, rule='SEQ'):
                     f'against evaluations and variances', where(prog, fr, it))
     else:
         obs.unk(rule, qr, con, 'neither a numbered key nor an iteration over the stored mapping was recognised', where(prog, fr, fr.node))
+
+
+def descriptors_unfiltered(ctx, obs, rule='TAB'):
+    """to_dict writes every descriptor dictionary as it is: a comprehension with an `if` filter (e.g. dropping 'index' because "the
+    constructor regenerates it") stores less than the object holds - after subset / indexing / sort_by(reindex=False) the index is
+    not the default running index, and the reloaded object differs."""
+    prog = ctx.prog
+    for q in ('rdm.rdms.RDMs.to_dict', 'data.base.DatasetBase.to_dict', 'data.dataset.TemporalDataset.to_dict'):
+        f = prog.func(q)
+        for s in ast.walk(f.node):
+            if isinstance(s, ast.Assign) and isinstance(s.targets[0], ast.Subscript) and isinstance(s.targets[0].slice, ast.Constant) \
+                    and isinstance(s.targets[0].slice.value, str) and s.targets[0].slice.value.endswith('descriptors'):
+                key = s.targets[0].slice.value
+                filt = [c for c in ast.walk(s.value) if isinstance(c, (ast.DictComp, ast.ListComp, ast.GeneratorExp))
+                        and any(g.ifs for g in c.generators)]
+                pops = False
+                obs.check(not filt, rule, q, f'`{key}` is written with all its entries',
+                          f'`{norm(s)[:90]}` filters the entries it stores: whatever is dropped here is regenerated (not restored) on load',
+                          '', where(prog, f, s))
